@@ -24,14 +24,14 @@
 enum { K_PUSH, K_PUSH_TEXT, K_POP_API, K_POP_SYST, K_POP_EMPTY, K_CLEAR, K_OVERFLOW, K_OVERFLOW_TEXT, K_OVERFLOW_POPPED,
        K_INTACT_API, K_INTACT_SYST, K_DROPPED, K_DROPPED_TOO_BIG, K_NOTEXT_OK, K_TWO_PARTS, K_REUSE_ANY, K_REUSE_FULL, K_REUSE_FULL_INTACT,
        K_EMPTY_TEXT, K_AUTOCUT_255, K_AUTOCUT_FULL, K_SYST_LIMITED, K_MODE_EXPL, K_MODE_AUTO, K_MODE_NULSHORT,
-       K_HIST, K_WRAP, K_GUARD_CHECKS, K_CLEAR_TEXT, K__N };
+       K_HIST, K_WRAP, K_GUARD_CHECKS, K_CLEAR_TEXT, K_CLIENT_KEEPS, K__N };
 static const char * const kname[K__N] = { "op.push", "op.push_text", "op.errorpop", "op.syst_err", "op.pop_on_empty", "op.clear",
     "overflow.events", "overflow.dropped_text", "overflow.marker_popped",
     "text.returned_intact_errorpop", "text.returned_intact_syst_err", "text.dropped", "text.dropped_larger_than_heap", "text.absent_as_expected", "text.returned_in_two_parts",
     "reuse.text_pushed_on_empty_queue", "reuse.full_heap_text_pushed", "reuse.full_heap_text_intact",
     "text.empty_pushed", "text.auto_length_cut_255", "text.auto_length_full", "syst_err.over_255_prefix_only",
     "push.explicit_len", "push.automatic_len", "push.explicit_len_beyond_nul",
-    "history.runs", "history.ring_wraparound", "heap.guard_checks", "clear.dropped_text" };
+    "history.runs", "history.ring_wraparound", "heap.guard_checks", "clear.dropped_text", "errorpop.text_kept_by_the_application_for_good" };
 static uint64_t kval[K__N];
 static uint64_t evals_local;
 #define CNT(k) (kval[k]++)
@@ -64,8 +64,10 @@ typedef struct {
     ref_queue_t q;
     const op_t * ops; int nops, cur;
     int dead;
+    int client_holds; /* the application took a text with SCPI_ErrorPop and keeps it: that part of the heap is not the queue's any more */
     uint64_t tag;
 } hist_t;
+static int g_client_keeps; /* this history: texts taken through SCPI_ErrorPop are never given back (the public API has no call for it) */
 
 static const scpi_command_t cmds[] = {
     { .pattern = "SYSTem:ERRor[:NEXT]?", .callback = SCPI_SystemErrorNextQ },
@@ -127,7 +129,7 @@ static void do_push(hist_t * h, const op_t * o) {
         }
         if (o->len == 0) { in.flags |= F_EMPTY; CNT(K_EMPTY_TEXT); }
         /* "heap space is completely reusable once the queue is empty" */
-        if (rq_count(&h->q) == 0 && eff >= 1 && eff + 1 <= h->H) {
+        if (rq_count(&h->q) == 0 && eff >= 1 && eff + 1 <= h->H && !h->client_holds) {
             in.flags |= F_MUST; CNT(K_REUSE_ANY);
             if (eff + 1 == h->H) CNT(K_REUSE_FULL);
         }
@@ -203,7 +205,8 @@ static void do_pop_api(hist_t * h) {
                 if (s2) { memcpy(tbuf + n, s2, l2); n += l2; CNT(K_TWO_PARTS); }
                 judge_text(h, &m, tbuf, n, "SCPI_ErrorPop+scpiheap_get_parts", 0, K_INTACT_API);
             } else judge_text(h, &m, "", 0, "SCPI_ErrorPop+scpiheap_get_parts", 0, K_INTACT_API); /* a pointer to an empty string */
-            scpiheap_free(&h->ctx->error_info_heap, t, false); /* the client releases at once, in pop order */
+            if (g_client_keeps) { h->client_holds = 1; CNT(K_CLIENT_KEEPS); } /* e.g. a front-panel error display that shows the text as long as it likes */
+            else scpiheap_free(&h->ctx->error_info_heap, t, false); /* the client releases at once, in pop order */
         }
     }
     free(e);
@@ -447,7 +450,9 @@ static void p2_run(uint64_t idx, vh_rng_t * rng) {
     vh_case_desc("random history: %d operations, heap %zu bytes, capacity %d, %d%% pushes, %d%% with text, length style %d", nops, H, N, pw_push, p_text, style);
     vh_watchdog(vh_args.thorough ? 60 : 10);
     rig_open(&rig, N, H);
+    g_client_keeps = (idx % 4 == 3);
     run_history(&rig, ops, nops);
+    g_client_keeps = 0;
     rig_close(&rig);
     vh_distinct(vh_hash_u64((uint64_t) N * 1000 + H, hsh));
     if (vh_want_sample()) vh_sample("random history: %d operations on a %zu-byte heap, capacity %d (%d%% pushes, %d%% with text, length style %d)", nops, H, N, pw_push, p_text, style);
@@ -462,7 +467,7 @@ int main(int argc, char ** argv) {
         { "random", p2_count, p2_run },
     };
     runs_init();
-    vh_require("overflow.events");
+    vh_require("errorpop.text_kept_by_the_application_for_good"); vh_require("overflow.events");
     vh_require("overflow.dropped_text");
     vh_require("overflow.marker_popped");
     vh_require("history.ring_wraparound");
